@@ -90,8 +90,9 @@ SCENARIOS = [
     expect_q 0
     reply 0 rcode=2
     expect_q 1
-    reply 1 rr=a:A:7:10
+    reply 1 rr=A:A:7:10
     wait_cb 1
+    resolve 2 a
     dump"""),
  _s("b04-servfail-everywhere", """
     cfg nsrv=2 retry=0 timeout=400 neg=4
@@ -511,14 +512,14 @@ SCENARIOS = [
 ]
 
 # ------------------------------------------------------------------------------------------------ random scenarios
-def random_scenario(rng, idx):
+def random_scenario(rng, idx, maxlen=18):
     """a seeded random walk over the scenario commands; guards in the driver keep it a legal use of the API"""
     nsrv = rng.choice([1, 2, 2]); retry = rng.choice([0, 1]); tmo = rng.choice([40, 70])
     L = ["cfg nsrv=%d retry=%d timeout=%d neg=4" % (nsrv, retry, tmo)]
     nl = 1; names = "ab" if rng.random() < 0.7 else "abc"
     shapes = ["rr=Q:A:1:4", "rr=Q:A:1:4", "rr=Q:A:2:9,Q:A:3:9", "rcode=3", "rcode=2", "", "rr=O:A:5:4",
               "rr=Q:C:O:4", "rr=Q:C:O:4,O:A:6:4", "rr=Q:C:Q:4", "rcode=3 soa=5:2", "trunc=17", "rr=Q:A:1:4 from=%d" % nsrv]
-    for _ in range(rng.randint(6, 18)):
+    for _ in range(rng.randint(6, maxlen)):
         c = rng.random()
         if c < 0.30 and nl <= 10:
             L.append("resolve %d %s" % (nl, rng.choice(names))); nl += 1
@@ -631,8 +632,12 @@ MC_QUICK = [
 ]
 MC_THOROUGH = [
     ("3lk-1srv", {"Lookups": "{1, 2, 3}", "MaxId": 3, "MaxDup": 0, "MaxFail": 0, "MaxForge": 0}, None, 4),
+    ("3lk-1srv-dup", {"Lookups": "{1, 2, 3}", "MaxId": 3, "MaxFail": 0, "MaxForge": 0}, None, 4),
+    ("3lk-1srv-fail-forge", {"Lookups": "{1, 2, 3}", "MaxId": 3, "MaxDup": 0, "MaxTick": 0}, None, 4),
+    ("3lk-2srv", {"Lookups": "{1, 2, 3}", "MaxId": 3, "NSrv": 2, "MaxRep": 1, "MaxFail": 0, "MaxForge": 0}, None, 4),
     ("2lk-full", {}, None, 4),
-    ("2lk-2srv-retry1-net", {"NSrv": 2, "Retry": 1, "MaxDup": 1, "MaxTick": 1, "MaxFail": 1, "MaxForge": 0}, None, 4),
+    ("2lk-2srv-retry1-tick", {"NSrv": 2, "Retry": 1, "MaxDup": 0, "MaxFail": 0, "MaxForge": 0}, None, 4),
+    ("2lk-2srv-retry1-dup-fail", {"NSrv": 2, "Retry": 1, "MaxTick": 0, "MaxForge": 0}, None, 4),
     ("liveness-2srv", {"NSrv": 2, "Retry": 1, "MaxRep": 1, "MaxDup": 0, "MaxForge": 0, "MaxFail": 0}, "Answered", 2),
 ]
 NEG_BASE = {"Lookups": "{1, 2, 3}", "MaxId": 3}
@@ -648,6 +653,11 @@ def model_checking(ctx):
         if r.rc != 0:
             ctx.fail("model:%s:%s" % (label, (r.violation or "error").replace(" ", "-")),
                      "the repaired model violates a stated property:\n" + r.out[-3500:], {"cfg": over})
+    # vacuity: one behaviour of the model takes every action (ghost set, "invariant" NotAllTaken must be violated)
+    r = common.tlc("MC_DnsResolvCov", workers=2, timeout=900, xmx="4g", xss="256m")
+    ctx.tlc_stats(r, "MC_DnsResolvCov/every-action-taken")
+    if r.rc != 12 or "NotAllTaken" not in (r.violation or ""):
+        raise common.Infra("vacuity probe: some action of MC_DnsResolv is never taken (rc=%s %s)" % (r.rc, r.violation))
     # every repair is needed: without it TLC must find a violated property
     def neg(f):
         over = dict(NEG_BASE); over["Fix"] = fixset([x for x in ALLFIX if x != f])
@@ -665,7 +675,7 @@ def model_checking(ctx):
 
 def report(ctx, runs, by, d, phase2):
     """turn the verdicts into findings"""
-    seen_absent = {}; seen_present = set()
+    seen_absent = {}; seen_present = {}      # repair -> witness run / runs
     undecided = []
     for k, run in enumerate(runs, 1):
         st, absent, acc = explain(by.get(k, []))
@@ -681,16 +691,18 @@ def report(ctx, runs, by, d, phase2):
             if miss: ctx.cov.setdefault("waits_missed_by_scenario", {})[run["name"]] = [m.get("what") for m in miss]
             if st == "undecided":
                 ctx.notes.append("%s: several repairs missing at once, minimal explanation not unique" % run["name"])
-            # a repair is shown PRESENT when some variant that lacks only it is rejected while AllFix is accepted
+            # a repair looks PRESENT when every accepting variant has it.  With the core family this is only a hint
+            # (the tree's own variant may not be in the family); run() re-validates with the full family before
+            # it calls two scenarios inconsistent.
             sets = [frozenset(v["fx"]) for v in acc]
-            if frozenset(ALLFIX) in sets:
-                for f in ALLFIX:
-                    if frozenset(set(ALLFIX) - {f}) not in sets: seen_present.add(f)
+            for f in ALLFIX:
+                if all(f in x for x in sets):
+                    seen_present.setdefault(f, []).append(run)
+                    ctx.cov.setdefault("repairs_present_by_scenario", {}).setdefault(f, []).append(run["name"])
             continue
         # rejected by every variant
         rej = [v for v in by.get(k, []) if set(v["fx"]) == set(ALLFIX)] or by.get(k, [])
         v = rej[0] if rej else {"line": 0, "why": "no verdict"}
-        # line numbers are global in the concatenated file: recover the local context
         evs = normalise(run["evs"])
         why = v["why"]
         last = run["evs"][-1]["e"] if run["evs"] else ""
@@ -699,14 +711,22 @@ def report(ctx, runs, by, d, phase2):
         elif last == "hang":
             key = "resolver:hang"
         else:
-            key = "conformance:" + re.sub(r"[^a-z]+", "-", why.split(";")[0].split(":")[0].lower()).strip("-")[:60]
+            key = "conformance:" + re.sub(r"[^a-z_]+", "-", why.split(";")[0].split(":")[0].lower()).strip("-")[:70]
+        # line numbers are global in the concatenated file: recover the local context
         off = sum(len(normalise(r2["evs"])) for r2 in runs[:k - 1])
         loc = max(0, v["line"] - off - 1)
-        ctx.fail(key, "scenario %s: the real resolver's history is explained by no variant of the model.\n"
-                 "fully repaired variant: line %d: %s\ncontext:\n%s\n--- driver output:\n%s"
-                 % (run["name"], loc + 1, why, "\n".join(json.dumps(e) for e in evs[max(0, loc - 8):loc + 1]), run["out"][-1200:]),
-                 {"scenario": run["name"], "text": run["text"]})
-    for f, run in seen_absent.items():
+        detail = ("scenario %s: the real resolver's history is explained by no variant of the model.\n"
+                  "fully repaired variant: line %d: %s\ncontext:\n%s\n--- driver output:\n%s"
+                  % (run["name"], loc + 1, why, "\n".join(json.dumps(e) for e in evs[max(0, loc - 8):loc + 1]), run["out"][-1200:]))
+        rejected = ctx.cov.setdefault("_rejected", {})
+        if key in rejected:
+            rejected[key]["more"].append(run["name"])
+        else:
+            rejected[key] = {"detail": detail, "replay": {"scenario": run["name"], "text": run["text"]}, "more": []}
+    return undecided, seen_absent, seen_present
+
+def report_deviations(ctx, seen_absent, seen_present):
+    for f, run in sorted(seen_absent.items()):
         if f in seen_present:
             ctx.fail("conformance:inconsistent:" + f, "repair %s is shown both present and absent by different scenarios" % f,
                      {"scenario": run["name"], "text": run["text"]})
@@ -716,7 +736,6 @@ def report(ctx, runs, by, d, phase2):
                  "history (TLC, Trace_DnsResolv); the repaired model rejects it.\n%s\n%s"
                  % (WHAT[f], run["name"], f, "\n".join(tail), run["out"][-800:] if run["rc"] not in (0,) else ""),
                  {"scenario": run["name"], "text": run["text"], "repair": f})
-    return undecided, seen_absent, seen_present
 
 def run(ctx):
     ctx.level = "model_checking"
@@ -732,8 +751,8 @@ def run(ctx):
     exe = build(d)
     rng = random.Random(ctx.seed * 7919 + 3)
     scen = list(SCENARIOS)
-    nrand = 12 if ctx.quick else 220
-    scen += [random_scenario(rng, i) for i in range(nrand)]
+    nrand = 12 if ctx.quick else 400
+    scen += [random_scenario(rng, i, 18 if ctx.quick or i % 3 else 30) for i in range(nrand)]
     t0 = time.time()
     with ThreadPoolExecutor(max_workers=5) as ex:
         fut_mc = ex.submit(model_checking, ctx)
@@ -742,11 +761,30 @@ def run(ctx):
         by, r1 = tlc_validate(runs, d, "core", "core")
         ctx.tlc_stats(r1, "Trace_DnsResolv/core-variants")
         undecided, absent, present = report(ctx, runs, by, d, phase2=False)
+        sound_present = set()
         if undecided:
             by2, r2 = tlc_validate(undecided, d, "all", "all")
             ctx.tlc_stats(r2, "Trace_DnsResolv/all-variants")
-            _, absent2, _ = report(ctx, undecided, by2, d, phase2=True)
-            absent.update(absent2)
+            _, absent2, present2 = report(ctx, undecided, by2, d, phase2=True)
+            for f, rn in absent2.items(): absent.setdefault(f, rn)
+            sound_present |= set(present2)
+        # a repair shown absent by one scenario and apparently present in another: decide with the full family
+        conflict = [f for f in absent if f in present]
+        if conflict:
+            again = []
+            for f in conflict:
+                for rn in present[f][:6]:
+                    if rn not in again: again.append(rn)
+            by3, r3 = tlc_validate(again, d, "recheck", "all")
+            ctx.tlc_stats(r3, "Trace_DnsResolv/all-variants-recheck")
+            for k, rn in enumerate(again, 1):
+                sets = [frozenset(v["fx"]) for v in by3.get(k, []) if v["verdict"] == "ACCEPT"]
+                for f in conflict:
+                    if sets and all(f in x for x in sets): sound_present.add(f)
+        ctx.cov.pop("repairs_present_by_scenario", None)
+        report_deviations(ctx, absent, sound_present)
+        for key, rj in sorted(ctx.cov.pop("_rejected", {}).items()):
+            ctx.fail(key, rj["detail"] + ("\n(also: %s)" % ", ".join(rj["more"][:20]) if rj["more"] else ""), rj["replay"])
         fut_mc.result()
     kinds = collections.Counter(e["e"] for r in runs for e in r["evs"])
     ctx.cov["trace_event_kinds"] = dict(kinds)
@@ -754,7 +792,7 @@ def run(ctx):
         if kinds.get(need, 0) == 0: raise common.Infra("no '%s' event in any trace: the binding is vacuous" % need)
     ctx.cov["scenarios"] = len(runs)
     ctx.cov["scenario_status"] = dict(collections.Counter(r.get("status", "?") for r in runs))
-    ctx.cov["repairs_shown_absent"] = sorted(absent); ctx.cov["repairs_shown_present"] = sorted(present)
+    ctx.cov["repairs_shown_absent"] = sorted(absent); ctx.cov["repairs_shown_present"] = sorted(set(present) - set(absent) | sound_present)
     ctx.add(evaluations=len(runs), distinct_nontrivial=len(runs),
             samples=[r["name"] for r in runs[:12]])
-    ctx.log("repairs shown absent (findings): %s; shown present: %s" % (sorted(absent), sorted(present)))
+    ctx.log("repairs shown absent (findings): %s; shown present: %s" % (sorted(absent), ctx.cov["repairs_shown_present"]))
